@@ -40,10 +40,10 @@ if __name__ == "__main__":
         if r.get("error"):
             print("ERROR", r["error"]); continue
         if r.get("invalid"):
-            print("INVALID x%d" % r["invalid"], r["first_invalid"][1]["detail"], compact(r["first_invalid"][0]["acts"]))
+            print("INVALID x%d" % r["invalid"], r["first_invalid"][1]["detail"], compact(r["first_invalid"][0]["acts"]) if "acts" in r["first_invalid"][0] else json.dumps(r["first_invalid"][0], default=repr)[:400])
         for tr, o in r["violations"]:
             cfg = tr.get("cfg", {})
-            clusters[(o["clause"], cfg.get("L"), cfg.get("R"))].append((compact(tr["acts"]) if "acts" in tr else json.dumps(tr)[:300], o["detail"][:200], cfg))
+            clusters[(o["clause"], cfg.get("L"), cfg.get("R"))].append((compact(tr["acts"]) if "acts" in tr else json.dumps(tr, default=repr)[:600], o["detail"][:200], cfg))
     if os.environ.get("DUMP"):
         allv = [(tr, o) for r in results if not r.get("error") for tr, o in r["violations"]]
         allv.sort(key=lambda x: len(json.dumps(x[0])))
